@@ -242,6 +242,8 @@ def check(ctx):
         o5.witness('enum-order')
     o5.stats = {'EventType': mem}
     obs.extend([o3, o4, o5, o6])
+    obs.append(ctx.shared('c09', 'C09.5', 'C11.7', 'a processor asks for its whole requirement in one reservation each time a part is offered; a refused reservation must leave '
+                          'every pool untouched, or usage exceeds what the holders hold'))
     return obs
 
 
